@@ -69,12 +69,12 @@ func apisimExec(r *Run) {
 	}
 	h.DrawCfg(cap)
 	long := false
-	if r.Prop == "C13" || r.Prop == "C08" {
+	if r.Prop == "C13" || r.Prop == "C08" || r.Prop == "C04" {
 		den := 40
 		if r.Tier == "thorough" {
 			den = 8
 		}
-		if r.Prop == "C08" {
+		if r.Prop == "C08" || r.Prop == "C04" { // C04 (wave 10): reads over paths longer than 2000 headers
 			// the listing over a chain longer than the default page (2000): rare in the quick tier (a long chain costs
 			// seconds: about one run per worker of a quick check), walked with the default page, its neighbours and
 			// sizes beyond it
@@ -682,7 +682,11 @@ func (a *apiSim) c04() {
 			y := a.anyHeader("anc-y")
 			if t.Chance(1, 2, "anc-related") { // bias to related pairs
 				y = x
-				for k := t.Range(0, 6, "anc-up"); k > 0 && y.Parent != nil; k-- {
+				k := t.Range(0, 6, "anc-up")
+				if a.long && t.Chance(2, 3, "anc-far") {
+					k = t.Range(1990, 2400, "anc-far-up") // a path around and beyond 2000 headers (wave 10: a silent bound in the recursive query)
+				}
+				for ; k > 0 && y.Parent != nil; k-- {
 					y = y.Parent
 				}
 			}
